@@ -97,7 +97,11 @@ def build(dag, defs, obs=None):
 def check_all(I, defs):
     n = len(I)
     for i in range(n):
-        iro = [_idx(I, x) for x in I[i].__iro__ if x is not Interface]
+        try:
+            iro = [_idx(I, x) for x in I[i].__iro__ if x is not Interface]
+        except ValueError:
+            return ('iro-lists-an-interface-that-is-not-an-ancestor-any-more', i,
+                    [getattr(x, '__name__', '?') for x in I[i].__iro__])
         v = check_node(I, defs, i, iro)
         if v:
             return v
